@@ -1,4 +1,5 @@
 import json
+from decimal import Decimal
 from pedal.core.feedback import Feedback
 from pedal.core.commands import set_correct
 from pedal.core.report import Report
@@ -123,6 +124,9 @@ class FinalFeedback:
             # Also untriggered positive feedback
             invert_logic = ((feedback.valence != feedback.NEGATIVE_VALENCE) == (not feedback))
             inversion = "!" if invert_logic else ""
+            if isinstance(partial, float) and 'e' in repr(partial):
+                # Plain decimal notation: the Score pattern does not read an exponent
+                partial = format(Decimal(repr(partial)), 'f')
             self._scores.append(f"{inversion}{partial}")
             feedback.resolved_score = Score.parse(f"{inversion}{partial}").to_percent_string()
         # If this is was not triggered but had an else message, then add it to the positives list
